@@ -25,9 +25,12 @@ Line == TraceLines[l]
 TInit == Init /\ l = 1
 
 Dispatch ==
-  \/ Line.a = "Init"  /\ InitSys(Line.arg.n)
-  \/ Line.a = "Query" /\ Query(Line.arg.from, Line.obs.r)
-  \/ Line.a = "Loop"  /\ Loop(Line.arg.from, Line.arg.shape, Line.obs.deltas)
+  \/ Line.a = "Init"      /\ InitWith(Line.arg)
+  \/ Line.a = "InitBurst" /\ InitBurst(Line.arg)
+  \/ Line.a = "Query"     /\ Query(Line.arg.from, Line.obs.r)
+  \/ Line.a = "Loop"      /\ LoopWith(Line.arg, Line.obs.deltas)
+  \/ Line.a = "LoopBurst" /\ LoopLike("LoopBurst", Line.arg, Line.obs.deltas)
+  \/ Line.a = "LoopPair"  /\ LoopPair(Line.arg, Line.obs.d1, Line.obs.d2)
 
 \* index of the next Reset line after line i (N + 1 if there is none)
 RECURSIVE NextReset(_)
@@ -35,7 +38,7 @@ NextReset(i) == IF i > N THEN N + 1 ELSE IF TraceLines[i].a = "Reset" THEN i ELS
 
 TStep   == l <= N /\ Line.a # "Reset" /\ Dispatch /\ l' = l + 1
 TReject == /\ l <= N /\ Line.a # "Reset" /\ ~ENABLED Dispatch
-           /\ PrintT(<<"TRACE-REJECTED-LINE", l, "CLS", IF Line.a \in {"Query", "Loop"} THEN Cls(Line.arg.from) ELSE "">>)
+           /\ PrintT(<<"TRACE-REJECTED-LINE", l, "CLS", IF Line.a \in {"Query", "Loop", "LoopBurst", "LoopPair"} THEN Cls(Line.arg.from) ELSE "">>)
            /\ l' = NextReset(l)
            /\ UNCHANGED <<inited, limit, reinit, last>>
 TReset  == /\ l <= N /\ Line.a = "Reset"
